@@ -102,16 +102,22 @@ def ref_sensitization(c, n, eps, ins):
     return out, full
 
 
-def check_sensitization(acc, desc, n, eps_arg):
+def check_sensitization(acc, desc, n, eps_arg, repeat=False):
     import circuitgraph as cg
 
-    case = {"kind": "sensitization", "desc": desc, "node": n, "endpoints": eps_arg}
+    case = {"kind": "sensitization", "desc": desc, "node": n, "endpoints": eps_arg, "repeat": repeat}
     c = space.build(desc)
     outs = sorted(c.outputs())
     eps = sorted(eps_arg) if eps_arg else outs
     acc.transitions += 1
     try:
-        m = cg.tx.sensitization_transform(c, n, endpoints=list(eps_arg) if eps_arg else None)
+        ep_obj = list(eps_arg) if eps_arg else None
+        if repeat:
+            cg.tx.sensitization_transform(c, n, endpoints=ep_obj)   # same circuit and same endpoints object again
+            if eps_arg and ep_obj != list(eps_arg):
+                acc.violation("sensitization", "endpoints-argument-modified", case, f"{list(eps_arg)} -> {ep_obj}")
+                return None
+        m = cg.tx.sensitization_transform(c, n, endpoints=ep_obj)
     except Exception as e:  # noqa: BLE001
         acc.violation("sensitization", f"raises:{common.exc_name(e)}", case, repr(e))
         return None
@@ -297,6 +303,9 @@ def run_transforms(job, acc):
             down = sorted(outs & descend(c, n))
             for eps in nonempty_subsets(down):
                 nt |= bool(check_sensitization(acc, desc, n, eps))
+            if down and (_idx // job["of"]) % 4 == 0:
+                check_sensitization(acc, desc, n, down[:1], repeat=True)
+                check_sensitization(acc, desc, n, None, repeat=True)
             # endpoint sets that contain outputs not downstream of n are legal too as long as n is in the fan-in
             other = sorted(outs - set(down) - {n})
             if down and other:
@@ -387,7 +396,7 @@ def replay(case, job):
     acc = Acc(job)
     k = case["kind"]
     if k == "sensitization":
-        check_sensitization(acc, case["desc"], case["node"], case["endpoints"])
+        check_sensitization(acc, case["desc"], case["node"], case["endpoints"], repeat=case.get("repeat", False))
     elif k == "sens_transform":
         check_sens_transform(acc, case["desc"], case["node"])
     else:
